@@ -42,6 +42,17 @@ claim('C05', 'abstract interpretation over a finite domain with loop fixpoint (a
       'certificate makes the aggregate Revoked and any non-OK certificate makes it non-OK; the loop is cut by equal lengths, visits all indices and indexes results and chain alike; both validator interfaces get the unsliced chain and the same '
       'signing time (zero unless signing-authority); a validator error or any aggregate other than OK sets the result\'s Error; the constructor leaves a non-nil validator or client. Covers all result vectors as abstract states, not as enumerated values; OCSP/CRL are trusted.', 'DESIGN.md 2/C05')
 
+claim('C06', 'must-check gate analysis with operand provenance + finite decision table by abstract interpretation (regime) on SSA',
+      'Static, all-paths: the expiry result is error-free only through expiry.IsZero() or time.Now().Before(expiry); under signing-authority every certificate of the whole chain is inside its window at SignedAttributes.SigningTime; '
+      'under notary.x509 the choice between timestamp verification and valid-at-time.Now() equals the specified table over tsa-listed x option x chain-expired (abstract interpretation of the decision code); the timestamp path is cut by '
+      'countersignature present, token parse, info, message imprint over SignerInfo.Signature, tsa stores (loaded by the tsa loader, non-empty, the only roots), token verification at the timestamp, timestamping chain rules, both bounded window tests '
+      'for every signing certificate and revocation of the TSA chain. Which clock/operand each comparison uses is decided; RFC 3161 verification and equal-instant behaviour are trusted.', 'DESIGN.md 2/C06')
+claim('C07', 'reader/writer type agreement + constant-table equality + abstract interpretation of codec functions (repo and dependency) + provenance',
+      'Static: every decode of a verified payload targets *envelope.Payload (what both signers marshal) or a generic map; notation.VerifyBlob and UserMetadata return fields of the payload decoded from the verified outcome; the signer and verifier hash->digest '
+      'tables are equal and cover the hashes core-go binds to the six key specs; proto.HashAlgorithmFromKeySpec equals core-go KeySpec.SignatureAlgorithm().Hash() on all six (both interpreted abstractly); Encode/DecodeKeySpec are inverse; '
+      'payload = Payload{Sanitize(desc)} with exactly four fields copied, the accepted content-type constant is the one written, expiry = SigningTime+duration only if non-zero, blob digest algorithm from the key spec with fail-closed miss. '
+      'These are necessary agreement conditions of the round trip; the round trip itself (cryptography, encoders) is not decidable statically.', 'DESIGN.md 2/C07')
+
 NA_REASON = {}
 
 def main():
